@@ -278,6 +278,18 @@ def check_one(ctx, s, encoded, part):
         ctx.fail("split_mismatch", case, "; ".join(f"{k}: expected {v!r} got {g!r}" for k, v, g in bad[:4]),
                  expected=_exp_json(e), fields=[b[0] for b in bad])
         return
+    if not encoded:
+        # the auto-encoding parser stores a CANONICAL authority: it is exactly what the four accessors re-compose to (a port written
+        # '08080', '+22' or with other digits is stored as the integer it denotes, an empty userinfo marker is dropped)
+        ra_ = guarded(lambda: u.raw_authority)
+        parts_ = [guarded(getattr, u, n_) for n_ in ("raw_user", "raw_password", "host_subcomponent", "explicit_port")]
+        if not is_exc(ra_) and ra_ and not any(is_exc(x) for x in parts_) and not all(c in "@:" for c in ra_):
+            ru_, rp_, hs_, ep_ = parts_
+            rebuilt = ((ru_ or "") + (":" + rp_ if rp_ is not None else "") + "@" if (ru_ is not None or rp_ is not None) else "") + (hs_ or "") + (f":{ep_}" if ep_ is not None else "")
+            ctx.count("canonical_authority_checked")
+            if rebuilt != ra_:
+                ctx.fail("authority_text_not_canonical", case, f"raw_authority={ra_!r} but the accessors re-compose to {rebuilt!r}", str=guarded(str, u))
+                return
     recomposition(ctx, u, case)
 
 
